@@ -148,3 +148,47 @@ func TestC14Fwd(t *testing.T) {
 		return s
 	})
 }
+
+// TestEnumC14Big: widths and precisions at the limits (1e6 is the largest
+// fmt accepts, literal or through '*') and large values that are congruent
+// to small ones modulo 65536, interleaved with those small ones (the result
+// must not depend on which directive was forwarded earlier in the process).
+func TestEnumC14Big(t *testing.T) {
+	widths := []struct {
+		w    string
+		star int
+	}{{"7", 0}, {"65543", 0}, {"12", 0}, {"65548", 0}, {"4464", 0}, {"70000", 0}, {"*", 65543}, {"999999", 0}, {"1000000", 0}, {"*", 1000000}, {"9", 0}, {"65545", 0}, {"131081", 0}}
+	precs := []struct {
+		p    string
+		star int
+	}{{"", 0}, {".3", 0}, {".65539", 0}, {".*", 65539}, {".1000000", 0}}
+	n := 0
+	for _, fl := range []string{"", "-", "+"} {
+		for _, vb := range []string{"d", "x", "v", "s"} {
+			for _, pr := range precs {
+				for _, wd := range widths {
+					if pr.p == ".1000000" && (wd.w != "7" || fl != "" || vb == "x") {
+						continue
+					}
+					big := wd.w == "999999" || wd.w == "1000000" || wd.star == 1000000
+					if big && (fl != "" || (vb != "d" && vb != "s") || (pr.p != "" && pr.p != ".3")) {
+						continue // (1 MB outputs: a few combinations only)
+					}
+					for _, op := range []string{"int", "string"} {
+						if (pr.p == ".1000000" || pr.star > 0 || pr.p == ".65539") && op == "int" && vb != "d" {
+							continue
+						}
+						spec := &C14Spec{Dir: Directive{Flags: fl, Width: wd.w, Prec: pr.p, Verb: B(vb)}, StarW: wd.star, StarP: pr.star, Operand: op}
+						res := checks["C14Fwd"].runSafely(spec)
+						n++
+						col.CaseFP("C14Fwd(big)", fingerprint([]byte(fmt.Sprint(spec.Dir.String(), wd.star, pr.star, op))), true, func() interface{} { return spec })
+						if res.Err != nil {
+							enumFail(t, "C14Fwd", spec, res.Err)
+						}
+					}
+				}
+			}
+		}
+	}
+	col.Exhaustive("C14Fwd(big)", fmt.Sprintf("%d directives with widths/precisions up to 1e6 (literal and '*') and values congruent modulo 65536, interleaved", n))
+}
